@@ -57,6 +57,37 @@ var semEntries = []semEntry{
 	{"DefaultParser[[]byte](0)", true, true, func(s string) (sem.Ver, error) { return sem.DefaultParser([]byte(s), 0) }, false},
 	{"DefaultParser[string](RuleDisableTag)", true, false, func(s string) (sem.Ver, error) { return sem.DefaultParser(s, sem.RuleDisableTag) }, false},
 	{"DefaultParser[[]byte](RuleDisableTag)", true, false, func(s string) (sem.Ver, error) { return sem.DefaultParser([]byte(s), sem.RuleDisableTag) }, true},
+	{"DefaultParser[string](RuleDisableTag|2)", true, false, func(s string) (sem.Ver, error) { return sem.DefaultParser(s, sem.RuleDisableTag|2) }, false},
+	{"DefaultParser[[]byte](all bits)", true, false, func(s string) (sem.Ver, error) { return sem.DefaultParser([]byte(s), ^sem.Rule(0)) }, false},
+	{"DefaultParser[string](RuleDisableTag|1<<20)", true, false, func(s string) (sem.Ver, error) { return sem.DefaultParser(s, sem.RuleDisableTag|1<<20) }, false},
+	{"DefaultParser[string](undefined bits only)", true, true, func(s string) (sem.Ver, error) { return sem.DefaultParser(s, 6) }, false},
+	{"Parse[[]byte] then the caller overwrites its buffer", true, true, func(s string) (sem.Ver, error) {
+		b := []byte(s)
+		v, err := sem.Parse(b)
+		for i := range b {
+			b[i] = 'Z'
+		}
+		return v, err
+	}, false},
+	{"Ver.UnmarshalText then the caller overwrites its buffer", true, true, func(s string) (sem.Ver, error) {
+		b := append(make([]byte, 0, len(s)+16), s...)
+		var v sem.Ver
+		err := v.UnmarshalText(b)
+		for i := range b[:cap(b)] {
+			b[:cap(b)][i] = '9'
+		}
+		return v, err
+	}, false},
+	{"Parser variable", true, true, func(s string) (sem.Ver, error) { return sem.Parser([]byte(s), 0) }, false},
+	{"Parser variable (RuleDisableTag)", true, false, func(s string) (sem.Ver, error) { return sem.Parser([]byte(s), sem.RuleDisableTag) }, false},
+	{"ParseVersion[[]byte] on a sub-slice of a record", true, false, func(s string) (sem.Ver, error) {
+		rec := append(append(make([]byte, 0, len(s)+12), s...), ".9-x+y"...)
+		v, err := sem.ParseVersion(rec[:len(s)])
+		if string(rec[len(s):]) != ".9-x+y" {
+			return sem.Ver{Major: 424242, Build: "parser wrote behind its input: " + string(rec)}, nil
+		}
+		return v, err
+	}, false},
 	{"Parse[named string]", true, true, func(s string) (sem.Ver, error) { return sem.Parse(semNamedS(s)) }, false},
 	{"ParseTag[named []byte]", false, true, func(s string) (sem.Ver, error) { return sem.ParseTag(semNamedB(s)) }, false},
 	{"DefaultParser[named string](RuleDisableTag)", true, false, func(s string) (sem.Ver, error) { return sem.DefaultParser(semNamedS(s), sem.RuleDisableTag) }, false},
@@ -126,6 +157,14 @@ func c03Case(w *rt.W, s string, full bool) bool {
 			w.Eval(1)
 			if ferr != nil || string(out) != s {
 				fail("format-does-not-reproduce-input", string(out), s)
+			}
+			if len(s)%8 == 0 { // the Formatter variable and caller buffers with spare capacity
+				o2, _ := sem.Formatter(append(make([]byte, 0, len(s)+len(s)%5+1), '>'), got, f)
+				o3, _ := sem.DefaultFormatter(make([]byte, 0, 64+len(s)), got, f)
+				w.Eval(2)
+				if string(o2) != ">"+s || string(o3) != s {
+					fail("format-into-caller-buffer", string(o2)+" / "+string(o3), ">"+s+" / "+s)
+				}
 			}
 			continue
 		}
